@@ -280,3 +280,27 @@ func VP_C03_CircleAxisBound() {
 	vp.Assert(w <= 1+1e-7, "extent is at most the radius (plus the numerical pad)")
 	vp.Reach("end")
 }
+
+// VP_C17_SymEigVector: the null-vector search behind Matrix3.SVD /
+// symmetric eigenvectors, on symmetric matrices that map the xy plane and the
+// z axis separately (symbolic 2x2 block a,c,b and symbolic eigenvalue in the
+// z slot, which makes the third row of A - val*I vanish): the returned unit
+// vector is an eigenvector for val.
+func VP_C17_SymEigVector() {
+	a, b, c, val := vp.Float64("a"), vp.Float64("b"), vp.Float64("c"), vp.Float64("val")
+	m := &Matrix3{a, c, 0, c, b, 0, 0, 0, val}
+	switch vp.Param("shape") {
+	case 1:
+		// the xy block does not have val as an eigenvalue: the eigenspace is the z axis
+		vp.Assume((a-val)*(b-val)-c*c != 0)
+	case 2:
+		// val is a double eigenvalue: xy block is singular at val but not zero
+		vp.AssumeEq((a-val)*(b-val), c*c)
+		vp.Assume(vp.Or(a != val, b != val))
+	}
+	v := m.symEigVector(val)
+	vp.Assert(v.X*v.X+v.Y*v.Y+v.Z*v.Z == 1, "symEigVector returns a unit vector")
+	out := m.MulColumn(v)
+	vp.Assert(vp.All(out.X == val*v.X, out.Y == val*v.Y, out.Z == val*v.Z), "symEigVector(val) is an eigenvector for val")
+	vp.Reach("end")
+}
